@@ -16,12 +16,14 @@ package fastq
 // A record is {"name":bytes,"seq":bytes,"quals":bytes}.
 
 import (
+	"bufio"
 	"bytes"
 	"compress/gzip"
 	"errors"
 	"fmt"
 	"io"
 	"iter"
+	"math"
 	"math/rand"
 	"os"
 	"path/filepath"
@@ -672,6 +674,18 @@ var vfClauses = []vrClause{
 			"Signature fastq:line-longer-than-65535 iff a read-back fails and some line of the text read is longer than 65535 bytes",
 		Gen: vfGenMarshalList,
 		Run: vfRunMarshalList,
+	},
+	{
+		Prop: "C02", Name: "extern-scanlines",
+		Bound: "exhaustive: every byte string over {LF, CR, 'a', 0x00} of length 0..6 (thorough 0..9); 60 long streams: one of the patterns 'a', 'abcdefg' CR LF, LF, CR, CR LF repeated and cut to 4095, 4096, 4097, 8191, 8192, 8193 bytes followed by '' or LF 'b' (around the 4096-byte initial buffer of bufio.Scanner and its first doubling); 18 streams of one line of 65535, 65536, 70000 'a' bytes (beyond the default 64 KiB token limit) followed by '', LF, CR LF, CR, LF 'b', CR LF 'b' LF; " +
+			"then 4000 (thorough 300000) random streams, fewer if the time share ends first: length 0..200 (1 in 64: 0..9000) over {LF, LF, CR, 'a', 'b', 0x00, 0xff, ' '}, 1 in 4 with every LF preceded by CR",
+		Rule: "conformance of the ASSUMED contract of bufio.Scanner + ScanLines over an in-memory stream (/verif/specs/00base.spec, lnN/lnS/lnT/lnE; /verif/govc/extern.go) with the real standard library; the repository is not called. " +
+			"The stream in[0..end) is scanned three times after s.Buffer(nil, math.MaxInt): from bytes.NewReader, from bytes.NewBuffer, and from bytes.NewReader with a split function that calls bufio.ScanLines and records the advance of every token; all three must deliver the same tokens, Err() == nil (Scan never fails), Scan stays false after it returned false. " +
+			"Spec functions from the real result: lnN := number of tokens; lnS(0) := 0, lnS(k+1) := lnS(k) + recorded advance of token k; lnE(k) := lnS(k) + len(token k); lnT(k) := lnS(k+1)-1 if that position is >= lnS(k) and holds LF, else lnS(k+1). Then every axiom is evaluated literally, quantifiers by looping: " +
+			"(1) lnN >= 0 && lnS(0) == 0 && lnS(lnN) == end; (2) 0 <= k < lnN ==> 0 <= lnS(k) < end; (3) 0 <= k < lnN ==> lnS(k) <= lnT(k) <= end && (lnT(k) < end ==> in[lnT(k)] == 10) && lnS(k+1) == (lnT(k) < end ? lnT(k)+1 : end) && lnE(k) == ((lnT(k) > lnS(k) && in[lnT(k)-1] == 13) ? lnT(k)-1 : lnT(k)); " +
+			"(4) 0 <= k < lnN && lnS(k) <= j < lnT(k) ==> in[j] != 10; (5) 0 <= k <= lnN && lnS(k) < end ==> k < lnN; (6, extern.go) token k has length lnE(k)-lnS(k) and its byte j is in[lnS(k)+j]. trivial: the empty stream",
+		Gen: vfxGenScanLines,
+		Run: vfxRunScanLines,
 	},
 	{
 		Prop: "C06", Name: "chunking",
@@ -1739,5 +1753,186 @@ func vfGenStop(g *vrGen) {
 		d := vfRandData(g.Rand)
 		allStops(d, g.Rand.Intn(4) == 0)
 		used += (4*len(d) + 120) * 4
+	}
+}
+
+// ---------------------------------------------------------------- C02/extern-scanlines
+//
+// Conformance of the assumed contract of bufio.Scanner + ScanLines (lnN / lnS /
+// lnT / lnE in /verif/specs/00base.spec) with the real standard library. The
+// clause does not call the repository. Input: {"pre":bytes,"data":bytes} (the
+// stream is pre followed by data; both accept the compact form).
+
+// vfxScan scans src with ScanLines after Buffer(nil, math.MaxInt). With wrap the
+// split function is a wrapper around bufio.ScanLines that records the advance
+// of every token. The tokens are copied when delivered.
+func vfxScan(src io.Reader, wrap bool, limit int) (lines [][]byte, advs []int, err error, bad string) {
+	sc := bufio.NewScanner(src)
+	sc.Buffer(nil, math.MaxInt)
+	if wrap {
+		sc.Split(func(data []byte, atEOF bool) (int, []byte, error) {
+			adv, tok, e := bufio.ScanLines(data, atEOF)
+			if tok != nil || adv != 0 {
+				advs = append(advs, adv)
+			}
+			return adv, tok, e
+		})
+	}
+	if p := vrCatch(func() {
+		for sc.Scan() {
+			if len(lines) >= limit {
+				bad = fmt.Sprintf("more than %d tokens", limit)
+				return
+			}
+			lines = append(lines, append([]byte{}, sc.Bytes()...))
+		}
+		err = sc.Err()
+		if sc.Scan() {
+			bad = "Scan returns true after it returned false"
+		}
+	}); p != nil {
+		bad = fmt.Sprintf("panic: %v", p)
+	}
+	return
+}
+
+func vfxSameLines(a, b [][]byte) bool {
+	if len(a) != len(b) {
+		return false
+	}
+	for i := range a {
+		if !bytes.Equal(a[i], b[i]) {
+			return false
+		}
+	}
+	return true
+}
+
+func vfxRunScanLines(in map[string]any) vrResult {
+	data := append(vfBytes(in["pre"]), vfBytes(in["data"])...)
+	end := len(data)
+	const exp = "every lnN/lnS/lnT/lnE axiom of /verif/specs/00base.spec holds for the real bufio.Scanner with ScanLines, and Err() == nil"
+	fail := func(f string, a ...any) vrResult {
+		return vrResult{Observed: fmt.Sprintf("stream %s: ", vfShort(data)) + fmt.Sprintf(f, a...), Expected: exp, Signature: "extern:scanlines"}
+	}
+	limit := end + 2
+	lines, _, err, bad := vfxScan(bytes.NewReader(data), false, limit)
+	if bad != "" || err != nil {
+		return fail("bytes.Reader: %s, Err() = %v", bad, err)
+	}
+	lines2, _, err, bad := vfxScan(bytes.NewBuffer(append([]byte(nil), data...)), false, limit)
+	if bad != "" || err != nil {
+		return fail("bytes.Buffer: %s, Err() = %v", bad, err)
+	}
+	lines3, advs, err, bad := vfxScan(bytes.NewReader(data), true, limit)
+	if bad != "" || err != nil {
+		return fail("recording split function: %s, Err() = %v", bad, err)
+	}
+	if !vfxSameLines(lines, lines2) || !vfxSameLines(lines, lines3) {
+		return fail("the three scans deliver different tokens (%d, %d, %d tokens)", len(lines), len(lines2), len(lines3))
+	}
+	if len(advs) != len(lines) {
+		return fail("%d tokens but %d recorded advances", len(lines), len(advs))
+	}
+	at := func(j int) int { // in[j]; -1 outside the stream
+		if j < 0 || j >= end {
+			return -1
+		}
+		return int(data[j])
+	}
+	// the spec functions, from the real result
+	lnN := len(lines)
+	lnS := make([]int, lnN+1)
+	lnT := make([]int, lnN)
+	lnE := make([]int, lnN)
+	for k := 0; k < lnN; k++ {
+		lnS[k+1] = lnS[k] + advs[k]
+		lnE[k] = lnS[k] + len(lines[k])
+		lnT[k] = lnS[k+1]
+		if lnT[k]-1 >= lnS[k] && at(lnT[k]-1) == 10 {
+			lnT[k]--
+		}
+	}
+	// (1) end >= 0 ==> lnN >= 0 && lnS(0) == 0 && lnS(lnN) == end
+	if !(lnN >= 0 && lnS[0] == 0 && lnS[lnN] == end) {
+		return fail("axiom (1): lnN = %d, lnS(0) = %d, lnS(lnN) = %d, end = %d", lnN, lnS[0], lnS[lnN], end)
+	}
+	for k := 0; k < lnN; k++ {
+		// (2) 0 <= k < lnN ==> 0 <= lnS(k) && lnS(k) < end
+		if !(0 <= lnS[k] && lnS[k] < end) {
+			return fail("axiom (2): k = %d, lnS(k) = %d, end = %d", k, lnS[k], end)
+		}
+		// (3)
+		next := end
+		if lnT[k] < end {
+			next = lnT[k] + 1
+		}
+		e := lnT[k]
+		if lnT[k] > lnS[k] && at(lnT[k]-1) == 13 {
+			e = lnT[k] - 1
+		}
+		if !(lnS[k] <= lnT[k] && lnT[k] <= end && (!(lnT[k] < end) || at(lnT[k]) == 10) && lnS[k+1] == next && lnE[k] == e) {
+			return fail("axiom (3): k = %d, lnS(k) = %d, lnT(k) = %d, lnE(k) = %d, lnS(k+1) = %d, end = %d, token %s", k, lnS[k], lnT[k], lnE[k], lnS[k+1], end, vfShort(lines[k]))
+		}
+		// (4) lnS(k) <= j < lnT(k) ==> in[j] != 10
+		for j := lnS[k]; j < lnT[k]; j++ {
+			if !(at(j) != 10) {
+				return fail("axiom (4): k = %d, LF at j = %d inside [lnS(k), lnT(k)) = [%d, %d)", k, j, lnS[k], lnT[k])
+			}
+		}
+		// (6) token k is in[lnS(k):lnE(k)]
+		for j := 0; j < len(lines[k]); j++ {
+			if !(int(lines[k][j]) == at(lnS[k]+j)) {
+				return fail("token %d differs from in[lnS(k)+j] at j = %d (lnS(k) = %d): token %s", k, j, lnS[k], vfShort(lines[k]))
+			}
+		}
+	}
+	// (5) 0 <= k <= lnN && lnS(k) < end ==> k < lnN
+	for k := 0; k <= lnN; k++ {
+		if !(!(lnS[k] < end) || k < lnN) {
+			return fail("axiom (5): k = %d = lnN, lnS(k) = %d < end = %d", k, lnS[k], end)
+		}
+	}
+	return vrResult{OK: true, Trivial: end == 0}
+}
+
+func vfxGenScanLines(g *vrGen) {
+	maxLen := 6
+	if g.Thorough() {
+		maxLen = 9
+	}
+	vrWords([]byte{'\n', '\r', 'a', 0x00}, maxLen, func(w []byte) bool {
+		g.Case(map[string]any{"pre": vrB(nil), "data": vrB(w)})
+		return true
+	})
+	for _, pat := range []string{"a", "abcdefg\r\n", "\n", "\r", "\r\n"} {
+		for _, n := range []int{4095, 4096, 4097, 8191, 8192, 8193} {
+			for _, tail := range []string{"", "\nb"} {
+				g.Case(map[string]any{"pre": vfPat(pat, n), "data": vrS(tail)})
+			}
+		}
+	}
+	for _, n := range []int{65535, 65536, 70000} {
+		for _, tail := range []string{"", "\n", "\r\n", "\r", "\nb", "\r\nb\n"} {
+			g.Case(map[string]any{"pre": vfPat("a", n), "data": vrS(tail)})
+		}
+	}
+	g.Exhaustive(true)
+	max := 4000
+	if g.Thorough() {
+		max = 300000
+	}
+	alpha := []byte{'\n', '\n', '\r', 'a', 'b', 0x00, 0xff, ' '}
+	rnd := &vfRnd{g: g}
+	for i := 0; i < max && rnd.more(); i++ {
+		n := g.Rand.Intn(201)
+		if g.Rand.Intn(64) == 0 {
+			n = g.Rand.Intn(9001)
+		}
+		w := vrRandWord(g.Rand, alpha, n)
+		if g.Rand.Intn(4) == 0 {
+			w = bytes.ReplaceAll(w, []byte("\n"), []byte("\r\n"))
+		}
+		rnd.emit(map[string]any{"pre": vrB(nil), "data": vrB(w)}, len(w))
 	}
 }
